@@ -49,12 +49,15 @@ def _known_expr(entry, env_names):
     return r
 
 
-def concrete_replay(shape, model, timeout=120):
-    """Run shape concretely (no stubs) in a fresh interpreter; returns dict(summary, judged, error)."""
+def concrete_replay(shape, model, timeout=120, mode=None):
+    """Run shape concretely (no stubs) in a fresh interpreter; returns dict(summary, judged, error).
+    mode='terminate': only run the real code (API and CLI) - used to tell a slow solver from a run that never ends."""
     payload = pickle.dumps((shape.__class__.__module__, shape.__class__.__name__, shape.sid, shape.params, model))
     env = dict(os.environ)
     env['PYTHONPATH'] = os.pathsep.join([VERIF, os.path.join(VERIF, '.deps')])
     env['PYTHONDONTWRITEBYTECODE'] = '1'
+    if mode:
+        env['SX_REPLAY_MODE'] = mode
     try:
         p = subprocess.run([sys.executable, '-B', '-m', 'sx.concrete'], input=payload, capture_output=True,
                            env=env, timeout=timeout, cwd=VERIF)
@@ -94,7 +97,7 @@ def run_shape(args):
             for k in known:
                 if fnmatch.fnmatch(name, k.get('obligation', '*')):
                     try:
-                        cs.append((k, _known_expr(k, dict(ctx.symbols, **shape.known_namespace()))))
+                        cs.append((k, _known_expr(k, dict(ctx.symbols, **ctx.str_symbols, **shape.known_namespace()))))
                     except NameError:
                         pass        # the class is phrased over a symbol this shape does not have: not applicable here
                     except Exception as e:  # noqa
@@ -178,18 +181,23 @@ def run_shape(args):
         if res.inconclusive is None and missing and not out['known_hits']:
             out['harness_errors'].append(f'reachability: outcome classes never reached: {sorted(missing)}')
         for i, nt in enumerate(res.nonterm):
-            if not shape.nonterm_is_violation or nt.get('model') is None:
-                out['harness_errors'].append(f'path budget exhausted (possible non-termination): {nt}')
+            if nt.get('model') is None:
+                out['harness_errors'].append(f'path budget exhausted and no model for the path: {nt}')
                 continue
-            # candidate non-termination: replay the model against the real CLI under a time limit
-            rep = concrete_replay(shape, nt['model'], timeout=opts.get('nonterm_timeout', 40))
-            if rep.get('timeout'):
+            # candidate non-termination: replay the path's model against the real CLI under a time limit
+            rep = concrete_replay(shape, nt['model'], timeout=opts.get('nonterm_timeout', 40), mode='terminate')
+            if rep.get('timeout') and shape.nonterm_is_violation:
                 v = {'obligation': f'{opts["prop"]}.assembly_terminates', 'model': nt['model'], 'outcome': 'nonterminating',
                      'path': -1, 'shape_id': shape.sid, 'known': None, 'real_outcome': {'kind': 'timeout'}}
                 v['replay'] = save_replay(opts['prop'], shape, v, 100 + i)
                 out['confirmed'].append(v)
+            elif rep.get('timeout'):
+                out['harness_errors'].append(f'path budget exhausted and the real run does not terminate either: {nt}')
+            elif shape.nonterm_is_violation and 'decisions' in str(nt.get('reason')):
+                out['harness_errors'].append(f'symbolic decision budget exhausted but the real run terminates: {nt}')
             else:
-                out['harness_errors'].append(f'symbolic path budget exhausted but the real run terminates: {nt}')
+                # the solver was slow on this path; the real code terminates on the path's model: no verdict
+                out['inconclusive'] = out.get('inconclusive') or f'path budget exhausted ({nt.get("reason")}); real run terminates'
     except Exception as e:  # noqa
         out['harness_errors'].append('worker exception: ' + ''.join(traceback.format_exception(e))[-3000:])
     finally:
@@ -267,6 +275,24 @@ def run_property(mod, tier, seed, replay_path=None):
     nproc = int(os.environ.get('VERIF_JOBS', os.cpu_count() or 4))
     results, unexplored = [], 0
     shutil.rmtree(os.path.join(REPLAY_ROOT, prop), ignore_errors=True)
+    # all scratch files of this run (workers and replay subprocesses) live in one directory that is removed at the end,
+    # also when a worker is terminated at its budget
+    import tempfile
+    scratch = tempfile.mkdtemp(prefix=f'sxrun_{prop}_')
+    old_tmp = os.environ.get('TMPDIR')
+    tempfile.tempdir = scratch
+    os.environ['TMPDIR'] = scratch
+    try:
+        return _run_property(mod, tier, seed, prop, t0, known, shapes, budget, opts, nproc, results, unexplored)
+    finally:
+        tempfile.tempdir = None
+        os.environ.pop('TMPDIR', None)
+        if old_tmp is not None:
+            os.environ['TMPDIR'] = old_tmp
+        shutil.rmtree(scratch, ignore_errors=True)
+
+
+def _run_property(mod, tier, seed, prop, t0, known, shapes, budget, opts, nproc, results, unexplored):
     if getattr(mod, 'SERIAL', False) or nproc == 1:
         for s in shapes:
             if time.time() - t0 > budget:
